@@ -501,3 +501,386 @@ Section Proofs.
     specialize (D [] (jsize data + refs_size refs)). rewrite app_nil_r in D. apply D. lia.
   Qed.
 End Proofs.
+
+(* ------------------------------------------------------------------------------------------------
+   The trip through JSON text: json.loads(json.dumps(x)) is the identity on everything the encoder
+   produces, because no object it builds has a repeated key ("representation collisions"). *)
+Section JsonText.
+  Variable isdig : N -> bool.
+  Variable ver : N.
+  Hypothesis isdig_ascii : forall c, is_ascii_digit c = true -> isdig c = true.
+
+  Notation py2js := (py2js isdig ver).
+  Notation str_isdigit := (str_isdigit isdig).
+  Notation enc_list := (enc_list isdig ver).
+  Notation enc_dict := (enc_dict isdig ver).
+
+  Definition extends (v : pyval) : Prop :=
+    forall r j r', py2js v r = Some (j, r') -> exists ext, r' = r ++ ext.
+
+  Lemma extends_list l :
+    Forall extends l -> forall r js r', enc_list l r = Some (js, r') -> exists ext, r' = r ++ ext.
+  Proof.
+    intros IH. induction IH as [|x xs Hx _ IHxs]; intros r js r' E; cbn in E.
+    - inversion E; subst. exists []. now rewrite app_nil_r.
+    - destruct (py2js x r) as [[jx r1]|] eqn:E1; [|discriminate].
+      destruct (enc_list xs r1) as [[js' r2]|] eqn:E2; [|discriminate]. inversion E; subst.
+      destruct (Hx _ _ _ E1) as [e1 ->]. destruct (IHxs _ _ _ E2) as [e2 ->].
+      exists (e1 ++ e2). now rewrite app_assoc.
+  Qed.
+
+  Lemma extends_dict kvs :
+    Forall (fun kv => extends (fst kv) /\ extends (snd kv)) kvs ->
+    forall r es r', enc_dict kvs r = Some (es, r') -> exists ext, r' = r ++ ext.
+  Proof.
+    intros IH. induction IH as [|[k x] rest [Hk Hx] _ IHrest]; intros r es r' E; cbn [SerializerProofs.enc_dict] in E.
+    - inversion E; subst. exists []. now rewrite app_nil_r.
+    - unfold enc_entry in E. cbn [fst snd] in *. destruct (key_is_dollar k); [discriminate|].
+      assert (Hgen : forall r0 key, (exists e0, r0 = r ++ e0) ->
+                match py2js x r0 with
+                | None => None
+                | Some (jx, r1) =>
+                    match enc_dict rest r1 with
+                    | None => None
+                    | Some (es, r2) => Some ((key, jx) :: es, r2)
+                    end
+                end = Some (es, r') -> exists ext, r' = r ++ ext).
+      { intros r0 key [e0 ->] E'. destruct (py2js x (r ++ e0)) as [[jx r1]|] eqn:E1; [|discriminate].
+        destruct (enc_dict rest r1) as [[es' r2]|] eqn:E2; [|discriminate]. inversion E'; subst.
+        destruct (Hx _ _ _ E1) as [e1 ->]. destruct (IHrest _ _ _ E2) as [e2 ->].
+        exists (e0 ++ e1 ++ e2). now rewrite !app_assoc. }
+      destruct k as [s|z|b| |l|l|l]; cbn [negb key_kind_ok] in E; try discriminate.
+      + destruct (negb (str_isdigit s)).
+        * eapply (Hgen r s); [exists []; now rewrite app_nil_r|exact E].
+        * eapply (Hgen (r ++ [JStr s])); [eexists; reflexivity|exact E].
+      + cbn [Serializer.py2js] in E. eapply (Hgen (r ++ [JInt z])); [eexists; reflexivity|exact E].
+      + cbn [Serializer.py2js] in E. eapply (Hgen (r ++ [JBool b])); [eexists; reflexivity|exact E].
+      + cbn [Serializer.py2js] in E. eapply (Hgen (r ++ [JNull])); [eexists; reflexivity|exact E].
+      + destruct (py2js (PTuple l) r) as [[jk r0]|] eqn:Ek; [|discriminate].
+        destruct (Hk _ _ _ Ek) as [e0 ->].
+        eapply (Hgen ((r ++ e0) ++ [jk])); [exists (e0 ++ [jk]); now rewrite app_assoc|exact E].
+  Qed.
+
+  Lemma extends_all v : extends v.
+  Proof.
+    induction v as [s|z|b| |l IH|l IH|kvs IH] using pyval_ind'; unfold extends; intros r j r' E;
+      try (inversion E; subst; exists []; now rewrite app_nil_r).
+    - rewrite py2js_tuple in E. destruct (enc_list l r) as [[js r2]|] eqn:EL; [|discriminate].
+      inversion E; subst. eapply extends_list; eassumption.
+    - rewrite py2js_list in E. destruct (enc_list l r) as [[js r2]|] eqn:EL; [|discriminate].
+      inversion E; subst. eapply extends_list; eassumption.
+    - rewrite py2js_dict in E. destruct (enc_dict kvs r) as [[es r2]|] eqn:EL; [|discriminate].
+      inversion E; subst. eapply extends_dict; eassumption.
+  Qed.
+
+  (* keys of an encoded object *)
+  Definition key_shape (kvs : list (pyval * pyval)) (lo hi : nat) (key : text) : Prop :=
+    (str_isdigit key = false /\ In (PStr key) (map fst kvs)) \/
+    (exists n, key = N_to_dec (N.of_nat n) /\ lo <= n < hi).
+
+  Lemma N_to_dec_inj a b : N_to_dec a = N_to_dec b -> a = b.
+  Proof. intros H. apply (f_equal dec_to_N) in H. rewrite !dec_to_N_to_dec in H. congruence. Qed.
+
+  Lemma enc_dict_keys kvs :
+    forall r es r', enc_dict kvs r = Some (es, r') ->
+      length r <= length r' /\ Forall (key_shape kvs (length r) (length r')) (map fst es).
+  Proof.
+    induction kvs as [|[k x] rest IH]; intros r es r' E; cbn [SerializerProofs.enc_dict] in E.
+    - inversion E; subst. split; [lia|constructor].
+    - unfold enc_entry in E. destruct (key_is_dollar k); [discriminate|].
+      assert (Hgen : forall r0 key, length r <= length r0 ->
+                key_shape ((k, x) :: rest) (length r) (length r0 + 0) key \/
+                (str_isdigit key = false /\ k = PStr key) ->
+                match py2js x r0 with
+                | None => None
+                | Some (jx, r1) =>
+                    match enc_dict rest r1 with
+                    | None => None
+                    | Some (es, r2) => Some ((key, jx) :: es, r2)
+                    end
+                end = Some (es, r') ->
+                length r <= length r' /\ Forall (key_shape ((k, x) :: rest) (length r) (length r')) (map fst es)).
+      { intros r0 key Hle Hkey E'. destruct (py2js x r0) as [[jx r1]|] eqn:E1; [|discriminate].
+        destruct (enc_dict rest r1) as [[es' r2]|] eqn:E2; [|discriminate]. inversion E'; subst.
+        destruct (extends_all x _ _ _ E1) as [e1 ->]. destruct (IH _ _ _ E2) as [Hl Hf].
+        rewrite app_length in *. split; [lia|]. cbn [map fst]. constructor.
+        - destruct Hkey as [[[A B]|[n [A B]]]|[A B]].
+          + left. split; assumption.
+          + right. exists n. split; [assumption|lia].
+          + left. split; [assumption|]. left. cbn. congruence.
+        - eapply Forall_impl; [|exact Hf]. intros key' [[A B]|[n [A B]]].
+          + left. split; [assumption|]. right. assumption.
+          + right. exists n. split; [assumption|]. try rewrite app_length in B. lia. }
+      destruct k as [s|z|b| |l|l|l]; cbn [negb key_kind_ok] in E; try discriminate.
+      + destruct (str_isdigit s) eqn:Hsd; cbn [negb] in E.
+        * eapply (Hgen (r ++ [JStr s])); [rewrite app_length; lia| |exact E].
+          left. right. exists (length r). split; [reflexivity|]. rewrite app_length. cbn. lia.
+        * eapply (Hgen r s); [lia| |exact E]. right. split; [assumption|reflexivity].
+      + cbn [Serializer.py2js] in E. eapply (Hgen (r ++ [JInt z])); [rewrite app_length; lia| |exact E].
+        left. right. exists (length r). split; [reflexivity|]. rewrite app_length. cbn. lia.
+      + cbn [Serializer.py2js] in E. eapply (Hgen (r ++ [JBool b])); [rewrite app_length; lia| |exact E].
+        left. right. exists (length r). split; [reflexivity|]. rewrite app_length. cbn. lia.
+      + cbn [Serializer.py2js] in E. eapply (Hgen (r ++ [JNull])); [rewrite app_length; lia| |exact E].
+        left. right. exists (length r). split; [reflexivity|]. rewrite app_length. cbn. lia.
+      + destruct (py2js (PTuple l) r) as [[jk r0]|] eqn:Ek; [|discriminate].
+        destruct (extends_all _ _ _ _ Ek) as [e0 ->].
+        (* the refid is length r, taken before the key is encoded *)
+        assert (Hgen' : forall r0 key, length r < length r0 ->
+                  key = N_to_dec (N.of_nat (length r)) ->
+                  match py2js x r0 with
+                  | None => None
+                  | Some (jx, r1) =>
+                      match enc_dict rest r1 with
+                      | None => None
+                      | Some (es, r2) => Some ((key, jx) :: es, r2)
+                      end
+                  end = Some (es, r') ->
+                  length r <= length r' /\ Forall (key_shape ((PTuple l, x) :: rest) (length r) (length r')) (map fst es)).
+        { intros r0 key Hlt -> E'. destruct (py2js x r0) as [[jx r1]|] eqn:E1; [|discriminate].
+          destruct (enc_dict rest r1) as [[es' r2]|] eqn:E2; [|discriminate]. inversion E'; subst.
+          destruct (extends_all x _ _ _ E1) as [e1 ->]. destruct (IH _ _ _ E2) as [Hl Hf].
+          rewrite app_length in *. split; [lia|]. cbn [map fst]. constructor.
+          - right. exists (length r). split; [reflexivity|lia].
+          - eapply Forall_impl; [|exact Hf]. intros key' [[A B]|[n [A B]]].
+            + left. split; [assumption|]. right. assumption.
+            + right. exists n. split; [assumption|]. try rewrite app_length in B. lia. }
+        eapply (Hgen' ((r ++ e0) ++ [jk])); [rewrite !app_length; cbn; lia|reflexivity|exact E].
+  Qed.
+
+  Lemma obj_set_fresh d k v :
+    ~ In k (map fst d) -> obj_set d k v = d ++ [(k, v)].
+  Proof.
+    induction d as [|[k0 v0] d IH]; cbn; [reflexivity|]. intros H.
+    destruct (text_eqb_spec k0 k) as [->|Hne]; [exfalso; apply H; now left|].
+    rewrite IH; [reflexivity|]. intros Hin. apply H. now right.
+  Qed.
+
+  Lemma json_rt_obj_id es :
+    NoDup (map fst es) -> Forall (fun kx => json_rt (snd kx) = snd kx) es -> json_rt (JObj es) = JObj es.
+  Proof.
+    intros Hnd Hf. cbn [json_rt]. f_equal.
+    assert (H : forall acc, (forall k, In k (map fst acc) -> In k (map fst es) -> False) ->
+              (fix go (kvs acc : list (text * jsval)) {struct kvs} :=
+                 match kvs with [] => acc | (k, x) :: rest => go rest (obj_set acc k (json_rt x)) end) es acc
+              = acc ++ es).
+    { induction es as [|[k x] rest IH]; intros acc Hdis; [now rewrite app_nil_r|].
+      inversion Hnd as [|? ? Hnin Hnd']; subst. inversion Hf as [|? ? Hx Hf']; subst. cbn [snd] in Hx.
+      rewrite Hx. rewrite obj_set_fresh.
+      2:{ intros Hin. apply (Hdis k Hin). now left. }
+      rewrite IH; [now rewrite <- app_assoc|assumption|assumption|].
+      intros k' Hin1 Hin2. rewrite map_app, in_app_iff in Hin1. destruct Hin1 as [Hin1|[<-|[]]].
+      - apply (Hdis k' Hin1). now right.
+      - apply Hnin. exact Hin2. }
+    rewrite H; [reflexivity|]. intros k [].
+  Qed.
+
+  Lemma keys_distinct_str s rest :
+    forallb (fun k' => negb (py_eqb (PStr s) k')) rest = true -> ~ In (PStr s) rest.
+  Proof.
+    intros H Hin. rewrite forallb_forall in H. specialize (H _ Hin). cbn in H.
+    rewrite text_eqb_refl in H. discriminate.
+  Qed.
+
+  Definition rt_fixed (v : pyval) : Prop :=
+    wf_py v = true ->
+    forall r j r', py2js v r = Some (j, r') ->
+      json_rt j = j /\ (Forall (fun x => json_rt x = x) r -> Forall (fun x => json_rt x = x) r').
+
+  Lemma json_rt_arr_id js : Forall (fun x => json_rt x = x) js -> json_rt (JArr js) = JArr js.
+  Proof. intros H. cbn. f_equal. induction H; cbn; [reflexivity|]. congruence. Qed.
+
+  Lemma rt_fixed_list l :
+    Forall rt_fixed l -> forallb wf_py l = true ->
+    forall r js r', enc_list l r = Some (js, r') ->
+      Forall (fun x => json_rt x = x) js /\
+      (Forall (fun x => json_rt x = x) r -> Forall (fun x => json_rt x = x) r').
+  Proof.
+    intros IH. induction IH as [|x xs Hx _ IHxs]; intros Hwf r js r' E; cbn in E.
+    - inversion E; subst. split; [constructor|auto].
+    - cbn in Hwf. apply andb_true_iff in Hwf as [Hwx Hwxs].
+      destruct (py2js x r) as [[jx r1]|] eqn:E1; [|discriminate].
+      destruct (enc_list xs r1) as [[js' r2]|] eqn:E2; [|discriminate]. inversion E; subst.
+      destruct (Hx Hwx _ _ _ E1) as [A B]. destruct (IHxs Hwxs _ _ _ E2) as [C D].
+      split; [constructor; assumption|auto].
+  Qed.
+
+  Lemma wrap_rt_id tag js :
+    Forall (fun x => json_rt x = x) js -> json_rt (wrap tag js) = wrap tag js.
+  Proof.
+    intros H. unfold wrap. apply json_rt_obj_id.
+    - cbn. constructor; [|constructor; [intros []|constructor]].
+      intros [Hin|[]]. unfold s_items, s_dollar in Hin. discriminate.
+    - constructor; [reflexivity|]. constructor; [|constructor]. cbn [snd]. apply json_rt_arr_id. exact H.
+  Qed.
+
+  Lemma rt_fixed_all v : rt_fixed v.
+  Proof.
+    induction v as [s|z|b| |l IH|l IH|kvs IH] using pyval_ind'; unfold rt_fixed; intros Hwf r j r' E;
+      try (inversion E; subst; split; [reflexivity|auto]).
+    - rewrite py2js_tuple in E. destruct (enc_list l r) as [[js r2]|] eqn:EL; [|discriminate].
+      inversion E; subst. cbn in Hwf. destruct (rt_fixed_list l IH Hwf _ _ _ EL) as [A B].
+      split; [|exact B]. destruct (N.eqb ver 1); [apply wrap_rt_id|apply json_rt_arr_id]; exact A.
+    - rewrite py2js_list in E. destruct (enc_list l r) as [[js r2]|] eqn:EL; [|discriminate].
+      inversion E; subst. cbn in Hwf. destruct (rt_fixed_list l IH Hwf _ _ _ EL) as [A B].
+      split; [|exact B]. destruct (N.eqb ver 2); [apply wrap_rt_id|apply json_rt_arr_id]; exact A.
+    - rewrite py2js_dict in E. destruct (enc_dict kvs r) as [[es r2]|] eqn:EL; [|discriminate].
+      inversion E; subst j r'. clear E.
+      assert (Hwf' : forallb (fun kv => hashable (fst kv) && negb (key_is_dollar (fst kv))) kvs = true
+                     /\ keys_distinct (map fst kvs) = true
+                     /\ forallb (fun kv => wf_py (snd kv)) kvs = true).
+      { cbn in Hwf. apply andb_true_iff in Hwf as [Hwf H3]. apply andb_true_iff in Hwf as [H1 H2].
+        split; [exact H1|]. split; [exact H2|]. clear -H3.
+        induction kvs as [|[k x] kvs IHk]; [reflexivity|]. cbn. apply andb_true_iff in H3 as [A B].
+        rewrite A. cbn. apply IHk. exact B. }
+      clear Hwf. destruct Hwf' as [Hk [Hd Hv]].
+      assert (H : NoDup (map fst es) /\ Forall (fun kx => json_rt (snd kx) = snd kx) es /\
+                (Forall (fun x => json_rt x = x) r -> Forall (fun x => json_rt x = x) r2)).
+      { revert r es r2 EL Hk Hd Hv.
+        induction IH as [|[k x] rest [Hkk Hx] _ IHrest]; intros r es r2 EL Hk Hd Hv.
+        - cbn in EL. inversion EL; subst. split; [constructor|]. split; [constructor|auto].
+        - pose proof (enc_dict_keys _ _ _ _ EL) as [Hlen Hshape].
+          cbn [SerializerProofs.enc_dict] in EL. unfold enc_entry in EL.
+          cbn [forallb fst] in Hk. apply andb_true_iff in Hk as [Hk1 Hk]. apply andb_true_iff in Hk1 as [Hhk Hnd].
+          apply negb_true_iff in Hnd. rewrite Hnd in EL.
+          cbn [map fst keys_distinct] in Hd. apply andb_true_iff in Hd as [Hd1 Hd].
+          cbn [forallb snd] in Hv. apply andb_true_iff in Hv as [Hvx Hv]. cbn [fst snd] in *.
+          (* common tail: value encoded against r0, rest against r1 *)
+          assert (Hgen : forall r0 key,
+                    (Forall (fun x => json_rt x = x) r -> Forall (fun x => json_rt x = x) r0) ->
+                    (forall es' r1 r2', enc_dict rest r1 = Some (es', r2') -> length r0 <= length r1 ->
+                        ~ In key (map fst es')) ->
+                    match py2js x r0 with
+                    | None => None
+                    | Some (jx, r1) =>
+                        match enc_dict rest r1 with
+                        | None => None
+                        | Some (es, r2) => Some ((key, jx) :: es, r2)
+                        end
+                    end = Some (es, r2) ->
+                    NoDup (map fst es) /\ Forall (fun kx => json_rt (snd kx) = snd kx) es /\
+                    (Forall (fun x => json_rt x = x) r -> Forall (fun x => json_rt x = x) r2)).
+          { intros r0 key Hr0 Hfresh E'. destruct (py2js x r0) as [[jx r1]|] eqn:E1; [|discriminate].
+            destruct (enc_dict rest r1) as [[es' r2']|] eqn:E2; [|discriminate]. inversion E'; subst.
+            destruct (Hx Hvx _ _ _ E1) as [A B]. destruct (IHrest _ _ _ E2 Hk Hd Hv) as [C [D F]].
+            destruct (extends_all x _ _ _ E1) as [e1 ->].
+            split; [|split].
+            - cbn [map fst]. constructor; [|exact C]. eapply Hfresh; [exact E2|rewrite app_length; lia].
+            - constructor; [exact A|exact D].
+            - intros Hr. apply F, B, Hr0, Hr. }
+          assert (Hrefkey : forall r0 : list jsval, length r < length r0 ->
+                    forall es' r1 r2', enc_dict rest r1 = Some (es', r2') -> length r0 <= length r1 ->
+                      ~ In (N_to_dec (N.of_nat (length r))) (map fst es')).
+          { intros r0 Hlt es' r1 r2' E2 Hle Hin. destruct (enc_dict_keys _ _ _ _ E2) as [_ Hs].
+            rewrite Forall_forall in Hs. destruct (Hs _ Hin) as [[A _]|[n [A B]]].
+            - rewrite dec_isdigit in A by exact isdig_ascii. discriminate.
+            - apply N_to_dec_inj in A. apply Nnat.Nat2N.inj in A. lia. }
+          destruct k as [s|z|b| |l|l|l]; cbn [negb key_kind_ok] in EL; try discriminate.
+          + destruct (str_isdigit s) eqn:Hsd; cbn [negb] in EL.
+            * eapply (Hgen (r ++ [JStr s])); [| |exact EL].
+              { intros Hr. apply Forall_app. split; [exact Hr|constructor; [reflexivity|constructor]]. }
+              apply Hrefkey. rewrite app_length. cbn. lia.
+            * eapply (Hgen r s); [auto| |exact EL].
+              intros es' r1 r2' E2 _ Hin. destruct (enc_dict_keys _ _ _ _ E2) as [_ Hs].
+              rewrite Forall_forall in Hs. destruct (Hs _ Hin) as [[_ B]|[n [A _]]].
+              -- apply (keys_distinct_str _ _ Hd1 B).
+              -- rewrite A in Hsd. rewrite dec_isdigit in Hsd by exact isdig_ascii. discriminate.
+          + cbn [Serializer.py2js] in EL. eapply (Hgen (r ++ [JInt z])); [| |exact EL].
+            { intros Hr. apply Forall_app. split; [exact Hr|constructor; [reflexivity|constructor]]. }
+            apply Hrefkey. rewrite app_length. cbn. lia.
+          + cbn [Serializer.py2js] in EL. eapply (Hgen (r ++ [JBool b])); [| |exact EL].
+            { intros Hr. apply Forall_app. split; [exact Hr|constructor; [reflexivity|constructor]]. }
+            apply Hrefkey. rewrite app_length. cbn. lia.
+          + cbn [Serializer.py2js] in EL. eapply (Hgen (r ++ [JNull])); [| |exact EL].
+            { intros Hr. apply Forall_app. split; [exact Hr|constructor; [reflexivity|constructor]]. }
+            apply Hrefkey. rewrite app_length. cbn. lia.
+          + destruct (py2js (PTuple l) r) as [[jk r0]|] eqn:Ek; [|discriminate].
+            assert (Hwk : wf_py (PTuple l) = true).
+            { clear -Hhk. cbn in Hhk |- *. induction l as [|y l IHl]; [reflexivity|]. cbn in *.
+              apply andb_true_iff in Hhk as [A B]. rewrite (IHl B), andb_true_r.
+              clear -A. induction y as [s|z|b| |l IH|l IH|kvs IH] using pyval_ind'; try reflexivity; try discriminate.
+              cbn in A |- *. induction IH as [|y ys Hy _ IHys]; [reflexivity|]. cbn in *.
+              apply andb_true_iff in A as [A1 A2]. rewrite (Hy A1), (IHys A2). reflexivity. }
+            destruct (Hkk Hwk _ _ _ Ek) as [Ajk Brk]. destruct (extends_all _ _ _ _ Ek) as [e0 ->].
+            eapply (Hgen ((r ++ e0) ++ [jk])); [| |exact EL].
+            { intros Hr. apply Forall_app. split; [exact (Brk Hr)|constructor; [exact Ajk|constructor]]. }
+            apply Hrefkey. rewrite !app_length. cbn. lia. }
+      destruct H as [Hnd [Hf Hr]]. split; [|exact Hr]. apply json_rt_obj_id; assumption.
+  Qed.
+
+  Theorem json_text_roundtrip_id v data refs :
+    wf_py v = true ->
+    python_to_json isdig ver v = Some (data, refs) ->
+    json_rt data = data /\ map json_rt refs = refs.
+  Proof.
+    unfold python_to_json. intros Hwf E. destruct (N.eqb ver 1 || N.eqb ver 2)%bool; [|discriminate].
+    destruct (rt_fixed_all v Hwf [] data refs E) as [A B]. split; [exact A|].
+    specialize (B (Forall_nil _)). clear E. induction B as [|y ys Hy _ IHys]; cbn [map]; [reflexivity|]. rewrite Hy, IHys. reflexivity.
+  Qed.
+End JsonText.
+
+(* ------------------------------------------------------------------------------------------------
+   The encoder accepts every well-formed value (so the round-trip theorem's hypothesis
+   [python_to_json ... = Some ...] is never vacuous). *)
+Section Total.
+  Variable isdig : N -> bool.
+  Variable ver : N.
+  Hypothesis isdig_ascii : forall c, is_ascii_digit c = true -> isdig c = true.
+  Hypothesis ver_ok : ver = 1%N \/ ver = 2%N.
+
+  Notation py2js := (py2js isdig ver).
+  Notation enc_list := (enc_list isdig ver).
+  Notation enc_dict := (enc_dict isdig ver).
+
+  Definition accepts (v : pyval) : Prop := wf_py v = true -> forall r, exists j r', py2js v r = Some (j, r').
+
+  Lemma accepts_list l : Forall accepts l -> forallb wf_py l = true -> forall r, exists js r', enc_list l r = Some (js, r').
+  Proof.
+    intros IH. induction IH as [|x xs Hx _ IHxs]; intros Hwf r; cbn.
+    - eauto.
+    - cbn in Hwf. apply andb_true_iff in Hwf as [A B]. destruct (Hx A r) as [jx [r1 ->]].
+      destruct (IHxs B r1) as [js [r2 ->]]. eauto.
+  Qed.
+
+  Lemma accepts_all v : accepts v.
+  Proof.
+    induction v as [s|z|b| |l IH|l IH|kvs IH] using pyval_ind'; unfold accepts; intros Hwf r; try (cbn; eauto; fail).
+    - rewrite py2js_tuple. cbn in Hwf. destruct (accepts_list l IH Hwf r) as [js [r' ->]]. eauto.
+    - rewrite py2js_list. cbn in Hwf. destruct (accepts_list l IH Hwf r) as [js [r' ->]]. eauto.
+    - rewrite py2js_dict.
+      assert (Hwf' : forallb (fun kv => hashable (fst kv) && negb (key_is_dollar (fst kv))) kvs = true
+                     /\ forallb (fun kv => wf_py (snd kv)) kvs = true).
+      { cbn in Hwf. apply andb_true_iff in Hwf as [Hwf H3]. apply andb_true_iff in Hwf as [H1 H2].
+        split; [exact H1|]. clear -H3.
+        induction kvs as [|[k x] kvs IHk]; [reflexivity|]. cbn. apply andb_true_iff in H3 as [A B].
+        rewrite A. cbn. apply IHk. exact B. }
+      clear Hwf. destruct Hwf' as [Hk Hv].
+      assert (H : exists es r', enc_dict kvs r = Some (es, r')).
+      { revert r. induction IH as [|[k x] rest [_ Hx] _ IHrest]; intros r; cbn [SerializerProofs.enc_dict].
+        - eauto.
+        - cbn [forallb fst snd] in Hk, Hv. apply andb_true_iff in Hk as [Hk1 Hk]. apply andb_true_iff in Hk1 as [Hhk Hnd].
+          apply negb_true_iff in Hnd. apply andb_true_iff in Hv as [Hvx Hv]. cbn [fst snd] in *.
+          unfold enc_entry. rewrite Hnd.
+          destruct (key_good_all isdig ver ver_ok k Hhk) as [jk [Ek _]].
+          assert (Hgen : forall r0 key, exists es r',
+                    match py2js x r0 with
+                    | None => None
+                    | Some (jx, r1) =>
+                        match enc_dict rest r1 with
+                        | None => None
+                        | Some (es, r2) => Some ((key, jx) :: es, r2)
+                        end
+                    end = Some (es, r')).
+          { intros r0 key. destruct (Hx Hvx r0) as [jx [r1 ->]]. destruct (IHrest Hk Hv r1) as [es [r2 ->]]. eauto. }
+          destruct k as [s|z|b| |l|l|l]; cbn [negb key_kind_ok]; try discriminate; try apply Hgen.
+          + destruct (negb (str_isdigit isdig s)); apply Hgen.
+          + rewrite Ek. apply Hgen. }
+      destruct H as [es [r' ->]]. eauto.
+  Qed.
+
+  Theorem encoder_total v : wf_py v = true -> exists data refs, python_to_json isdig ver v = Some (data, refs).
+  Proof.
+    intros Hwf. unfold python_to_json.
+    assert (N.eqb ver 1 || N.eqb ver 2 = true)%bool as -> by (destruct ver_ok as [-> | ->]; reflexivity).
+    apply accepts_all. exact Hwf.
+  Qed.
+End Total.
